@@ -24,12 +24,30 @@
 (* nodes, every listing order, with/without private inputs/outputs,        *)
 (* duplicated discipline names; family "N": every assignment of input and  *)
 (* output name sets over a small universe, which adds shared variables,    *)
-(* fan-out and several producers of one name), runs the code-shaped        *)
-(* construction of DependencyGraph.get_execution_sequence (Condense, Peel  *)
-(* the leaves of the condensation, Reverse) and checks it against the      *)
-(* relation, and prints each instance with the values the specification    *)
-(* expects.  DepGraphReport.tla evaluates the same operators on what the   *)
-(* real gemseo objects returned.                                           *)
+(* fan-out and several producers of one name).  An instance is a number    *)
+(* whose bits are the adjacency matrix / the set memberships; SampleMod    *)
+(* and Pick select sub-families for the sizes that are not enumerated      *)
+(* completely.  Along each behaviour                                       *)
+(*   Build     the disciplines are created from the instance               *)
+(*   Condense  the strongly connected components become the nodes          *)
+(*   Peel      the leaves of the condensation are removed, stage by stage  *)
+(*   Reverse   the list of stages is reversed                              *)
+(*   EmitCase  (behaviour generation) the instance is printed with what    *)
+(*             the specification expects of the implementation             *)
+(* follow DependencyGraph.get_execution_sequence step by step.  Invariants *)
+(* (checked by TLC on every instance):                                     *)
+(*   SCCPartition, CondensationAcyclic, PeelInv   the construction         *)
+(*   ConstructionValid          its result is in the relation ValidSequence*)
+(*   ScheduleRespectsDependencies, NoEmptyStage                            *)
+(*   CouplingFacts              relations between the documented sets      *)
+(*   Nilpotent                  the numeric layer has one integer solution *)
+(*   CompositionTheorem         executing any schedule of the relation     *)
+(*                              (sequentially, stage-parallel, as a chain) *)
+(*                              yields Mono(g) from any initial guess      *)
+(*   InitChainTheorem           the greedy initialization order exists     *)
+(*                              exactly for acyclic systems and is valid   *)
+(* DepGraphReport.tla evaluates the same operators on what the real gemseo *)
+(* objects returned for each printed instance.                             *)
 (***************************************************************************)
 EXTENDS Integers, Sequences, FiniteSets, TLC
 
@@ -42,6 +60,7 @@ CONSTANTS
   Dups,        \* subset of BOOLEAN         all disciplines carry the same name (family E)
   UK,          \* number of names           (family N: the names are the first UK of UNames)
   SampleMod, SampleKey,   \* keep the instance iff (Hash + SampleKey) % SampleMod = 0
+  Pick,        \* 0: enumerate every code and filter; > 0: that many codes spread over the whole range
   Emit         \* TRUE: print one CASE record per instance
 
 ---------------------------------------------------------------------------------
@@ -101,8 +120,6 @@ StrongDiscs(g) == UNION StrongGroups(g)
 WeakDiscs(g) == Pos(g) \ StrongDiscs(g)
 StrongC(g) == UNION {GIn(g, C) \cap GOut(g, C) : C \in StrongGroups(g)}
 WeakC(g) == GOut(g, WeakDiscs(g))
-OutCouplings(g, p, strong) == g.outs[p] \cap (IF strong THEN StrongC(g) ELSE AllC(g))
-InCouplings(g, p, strong) == g.ins[p] \cap (IF strong THEN StrongC(g) ELSE AllC(g))
 
 ---------------------------------------------------------------------------------
 (* the integer data-flow system carried by g and its simultaneous solution *)
@@ -112,18 +129,19 @@ Consistent(g) == \A v \in Names(g) : Cardinality(Prod(g, v)) <= 1
 FreeNames(g) == {v \in Names(g) : Prod(g, v) = {}}
 InSum(g, p, val) == Sum(g.ins[p], [k \in g.ins[p] |-> g.w[p][k] * val[k]])
 RunDisc(g, p, val) ==           \* outputs of discipline p executed on the data val
-  LET s == InSum(g, p, val) IN [v \in g.outs[p] |-> s + g.c[p][v]]
+  LET s == InSum(g, p, val) IN TLCEval([v \in g.outs[p] |-> s + g.c[p][v]])
 Step(g, val) ==                 \* every discipline executed at once on val
-  LET S == [p \in Pos(g) |-> InSum(g, p, val)]
-  IN [v \in DOMAIN val |-> IF g.prod[v] = {} THEN val[v]
-                           ELSE LET p == CHOOSE p \in g.prod[v] : TRUE IN S[p] + g.c[p][v]]
+  LET S == TLCEval([p \in Pos(g) |-> InSum(g, p, val)])
+  IN TLCEval([v \in DOMAIN val |-> IF g.prod[v] = {} THEN val[v]
+                                   ELSE LET p == CHOOSE p \in g.prod[v] : TRUE IN S[p] + g.c[p][v]])
 RECURSIVE Iter(_, _, _)
 Iter(g, val, k) == IF k = 0 THEN val ELSE Iter(g, Step(g, val), k - 1)
 Mono(g) == Iter(g, g.x0, g.n + 1)
 OtherGuess(g) == [v \in DOMAIN g.x0 |-> IF g.prod[v] = {} THEN g.x0[v] ELSE 7]
 
 (* sequential composition (MDOChain._execute): data.update(d.execute(data)) *)
-Update(val, out) == [v \in DOMAIN val |-> IF v \in DOMAIN out THEN out[v] ELSE val[v]]
+Update(val, out) == TLCEval([v \in DOMAIN val |-> IF v \in DOMAIN out THEN out[v] ELSE val[v]])
+   \* (TLCEval: TLC would otherwise keep the function unevaluated and re-evaluate it at every application)
 RECURSIVE ChainEval(_, _, _)
 ChainEval(g, ps, val) ==
   IF ps = <<>> THEN val ELSE ChainEval(g, Tail(ps), Update(val, RunDisc(g, Head(ps), val)))
@@ -146,10 +164,25 @@ MergeAll(g, grps, val0, acc) == \* every group of a stage on the SAME data, resu
   IF grps = <<>> THEN acc
   ELSE LET r == GroupEval(g, Head(grps), val0)
            outs == GOut(g, ToSet(Head(grps)))
-       IN MergeAll(g, Tail(grps), val0, [v \in DOMAIN acc |-> IF v \in outs THEN r[v] ELSE acc[v]])
+       IN MergeAll(g, Tail(grps), val0, TLCEval([v \in DOMAIN acc |-> IF v \in outs THEN r[v] ELSE acc[v]]))
 RECURSIVE ParEval(_, _, _)      \* stages in parallel (MDOParallelChain per stage)
 ParEval(g, seq, val) ==
   IF seq = <<>> THEN val ELSE ParEval(g, Tail(seq), MergeAll(g, Head(seq), val, val))
+
+(* the order in which the disciplines are actually run (a log of positions) *)
+(* respects the dependencies: every discipline runs, and every run of a     *)
+(* producer precedes every run of a consumer that is not mutually dependent *)
+(* with it (members of a group may be run repeatedly, in any order)         *)
+RespectsDependencies(g, log) ==
+  /\ ToSet(log) = Pos(g)
+  /\ \A a, b \in 1..Len(log) :
+        (Edge(g, log[b], log[a]) /\ ~\E C \in SCCs(g) : {log[a], log[b]} \subseteq C) => (b < a)
+(* the data a chain over the positions ps needs from outside / provides     *)
+RECURSIVE ChainInputs(_, _, _)
+ChainInputs(g, ps, made) ==
+  IF ps = <<>> THEN {} ELSE (g.ins[Head(ps)] \ made) \cup ChainInputs(g, Tail(ps), made \cup g.outs[Head(ps)])
+(* the labelled dependency graph: one edge per ordered pair exchanging data *)
+LabelledEdges(g) == {<<e[1], e[2], g.outs[e[1]] \cap g.ins[e[2]]>> : e \in EdgeRel(g)}
 
 (* MDOInitializationChain: an order in which every discipline finds its    *)
 (* inputs among the defaults (here: the free names) and earlier outputs    *)
@@ -238,6 +271,10 @@ Orders(n) == IF OrderMode = "all" THEN Perms(n)
              ELSE IF OrderMode = "rot" THEN {Rot(n, k) : k \in 0..(n - 1)} ELSE {Rot(n, 0)}
 OrdCode(n, order) == Sum(1..n, [p \in 1..n |-> order[p] * (4 ^ (p - 1))])
 Sampled(h) == (SampleMod = 1) \/ ((h + SampleKey) % SampleMod = 0)
+Codes(bits) ==                  \* the instance numbers enumerated
+  IF Pick = 0 THEN 0..((2 ^ bits) - 1)
+  ELSE LET hi == bits \div 2  lo == bits - (bits \div 2)
+       IN {((j * 2731 + SampleKey) % (2 ^ hi)) * (2 ^ lo) + ((j * 3571 + 7 * SampleKey) % (2 ^ lo)) : j \in 1..Pick}
 KeepE(n, k, oc, priv, dup) ==
   /\ (LoopMode = "all") \/ NoLoop(n, k)
   /\ Sampled(31 * k + 7 * oc + (IF priv THEN 3 ELSE 0) + (IF dup THEN 5 ELSE 0))
@@ -265,11 +302,11 @@ Init ==
   /\ \/ /\ Fam = "E"
         /\ \E n \in NMin..NMax : \E order \in Orders(n) : \E priv \in Privs : \E dup \in Dups :
            LET oc == OrdCode(n, order) IN
-           \E k \in 0..((2 ^ (n * n)) - 1) :
+           \E k \in Codes(n * n) :
              /\ KeepE(n, k, oc, priv, dup)
              /\ code = [fam |-> "E", n |-> n, adj |-> AdjOf(n, k), order |-> order, priv |-> priv, dup |-> dup]
      \/ /\ Fam = "N"
-        /\ \E n \in NMin..NMax : \E k \in 0..((2 ^ (2 * UK * n)) - 1) :
+        /\ \E n \in NMin..NMax : \E k \in Codes(2 * UK * n) :
              /\ Sampled(k)
              /\ code = [fam |-> "N", n |-> n, ins |-> InsOf(n, k), outs |-> OutsOf(n, k)]
 
@@ -347,6 +384,9 @@ PeelInv ==                      \* while peeling: every successor of a peeled gr
 ConstructionValid ==            \* the theorem: peel the leaves and reverse is a valid schedule
   (pc = "done") => ValidSequence(g, stages)
 
+ScheduleRespectsDependencies == \* running the groups stage by stage is an admissible execution order
+  (pc = "done") => RespectsDependencies(g, Flatten(stages))
+
 NoEmptyStage == (pc = "done") => \A s \in 1..Len(stages) : stages[s] # <<>>
 
 CouplingFacts ==
@@ -379,5 +419,5 @@ InitChainTheorem ==             \* the greedy initialization succeeds exactly on
   /\ (r.ok /\ Consistent(g)) => (ChainEval(g, r.ord, g.x0) = Mono(g))
   /\ (~r.ok) => ~\E ord \in Perms(g.n) : ValidInitOrder(g, ord)
 
-Depth == TLCGet("level") <= 8
+Depth == TLCGet("level") <= 12     \* a behaviour has at most MaxD + 5 states
 ================================================================================
